@@ -35,6 +35,13 @@ pub fn check_case(body: &[u8], filters: &[FilterSpec], headers: &Headers, stats:
         return vec![];
     }
     let mut out = Vec::new();
+    let names: Vec<String> = filters
+        .iter()
+        .flat_map(|f| match f {
+            FilterSpec::Html { path, .. } => path.clone(),
+            _ => vec![],
+        })
+        .collect();
     // simplest explanations first: all single-cut schedules
     let n = body.len();
     let spans = token_spans(body);
@@ -42,7 +49,7 @@ pub fn check_case(body: &[u8], filters: &[FilterSpec], headers: &Headers, stats:
     for p in 1..n {
         let got = run_schedule(body, filters, headers, &[p, n - p]);
         if got != reference {
-            let ctx = classify_cut(body, &spans, p);
+            let ctx = classify_cut(body, &spans, p, &names);
             if seen_ctx.insert(ctx.clone()) {
                 out.push((
                     ctx,
@@ -60,7 +67,7 @@ pub fn check_case(body: &[u8], filters: &[FilterSpec], headers: &Headers, stats:
     if out.is_empty() {
         // no single cut explains it: report the shortest witnesses found by the BFS
         for (got, hist) in wrong {
-            let sig = classify_schedule(body, hist);
+            let sig = classify_schedule(body, hist, &names);
             if seen_ctx.insert(sig.clone()) {
                 out.push((
                     sig,
